@@ -25,6 +25,7 @@ class SimWriter:
         self.mode = "w" if text else "wb"
         self.buf = bytearray()
         self.dead = False
+        self.failed = False       # a disk error hit this writer: data is lost
         self.closed = False
         self.actor = actor
         self.fd = os.open(path, os.O_WRONLY | os.O_CREAT | os.O_TRUNC, 0o644)
@@ -61,6 +62,22 @@ class SimWriter:
             self.fs.sim.seam("flush", self.fs.rel(self.path), self.nflushed, n)
             if self.dead:
                 return
+            err = self.fs.draw_io_fault()
+            if err == "short":
+                # short write then error: part of the chunk reaches the file
+                k = max(1, n // 2)
+                os.write(self.fd, bytes(self.buf[:k]))
+                del self.buf[:k]
+                self.nflushed += k
+                self.fs.ctx.hit("fault.short_write_then_eio")
+                self.fs.sim.log.ev("fault.short_write", self.fs.rel(self.path))
+                self.failed = True
+                raise OSError(5, "Input/output error (simulated)")
+            if err == "enospc":
+                self.fs.ctx.hit("fault.disk_full")
+                self.fs.sim.log.ev("fault.enospc", self.fs.rel(self.path))
+                self.failed = True
+                raise OSError(28, "No space left on device (simulated)")
             os.write(self.fd, bytes(self.buf[:n]))
             del self.buf[:n]
             self.nflushed += n
@@ -75,7 +92,7 @@ class SimWriter:
             return
         if not self.dead:
             self.fs.sim.seam("close", self.fs.rel(self.path), "w")
-        if not self.dead:
+        if not self.dead and not self.failed:
             self._drain(False)
         self.closed = True
         try:
@@ -84,7 +101,10 @@ class SimWriter:
             pass
         if self.actor is not None and self in self.actor.files:
             self.actor.files.remove(self)
-        if self.dead:
+        if self.failed:
+            self.fs.ctx.hit("probe.file_left_torn_by_disk_error")
+            self.fs.on_write_abandoned(self.path)
+        elif self.dead:
             self.fs.ctx.hit("probe.file_left_torn_by_crash")
             self.fs.on_write_abandoned(self.path)
         else:
@@ -167,6 +187,19 @@ class SimFS:
 
     def rel(self, p):
         return os.path.relpath(p, self.root)
+
+    io_fault_rate = 0      # per 1000 flushes
+    io_fault_budget = 0
+
+    def draw_io_fault(self):
+        """Disk faults on a buffer flush (seeded): short write + EIO, ENOSPC."""
+        if self.io_fault_budget <= 0 or self.io_fault_rate <= 0:
+            return None
+        v = self.sim.cs.draw("iofault", 1000)
+        if v >= 1000 - self.io_fault_rate:
+            self.io_fault_budget -= 1
+            return "short" if v % 2 else "enospc"
+        return None
 
     def mine(self, file):
         if isinstance(file, int):
